@@ -125,9 +125,32 @@ def replay_tps(data):
                            slopes=data, got=m, want=want, got_err=e, want_err=werr)
 
 
-def case_tps(ctx, shape):
+def _lowdim_values(data, m):
+    try:
+        a, b = float(m(var("sa"))), float(m(var("sb")))
+    except Exception:
+        a, b = 1.0, 0.5
+    if a == 0 and b == 0:
+        a, b = 1.0, 0.5
+    out = numpy.empty(data.shape, dtype=float)
+    for i in numpy.ndindex(*data.shape):
+        out[i] = float(harness.Evaluator({"sa": a, "sb": b}, harness.default_ufs())(Sym.lift(data[i])).real)
+    return out
+
+
+def case_tps(ctx, shape, lowdim=False):
     _, tp = _mods()
     data = symarr("s", shape)
+    if lowdim:
+        # long frame axis: the slopes are a u + b v with two symbolic amplitudes and fixed small-integer patterns u, v
+        # (keeps every obligation a polynomial in two variables)
+        a_, b_ = var("sa"), var("sb")
+        rng = rng_for("c19tps%s" % (shape,))
+        pat = numpy.empty(shape, dtype=object)
+        for i in numpy.ndindex(*shape):
+            pat[i] = a_ * rng.randint(-3, 3) + b_ * rng.randint(-3, 3)
+        data = core.obj(pat)
+        ctx.bounds.update(slopes="a u + b v, amplitudes a, b symbolic, u, v fixed integer patterns")
     k = var("k")
     n = shape[-2]
     ns = shape[-1]
@@ -138,7 +161,7 @@ def case_tps(ctx, shape):
         mk, ek = tp.calc_slope_temporalps(core.obj(data * k))
     ctx.paths += 1
     mean_tps = numpy.asarray(mean_tps, dtype=object)
-    rp = lambda m: replay_tps(m(data))
+    rp = lambda m: replay_tps(numpy.asarray(m(data), dtype=float) if not lowdim else _lowdim_values(data, m))
     F = npx.dft_axis(data, axis=-2)
     half = int(n / 2)
     want = numpy.empty(shape[:-2] + (half,), dtype=object)
@@ -184,7 +207,7 @@ def case_tps(ctx, shape):
     ctx.prove("error term = sqrt(variance) / sqrt(n_subaps)", [], conj(g2), replay=rp, timeout_ms=60000)
     # a pure sinusoid at bin k0 peaks at bin k0
     amp = var("amp")
-    for k0 in range(1, half):
+    for k0 in (range(1, half) if not lowdim else sorted({1, half - 1})):
         sig = numpy.empty(shape, dtype=object)
         for idx in numpy.ndindex(*shape):
             t = idx[-2]
@@ -197,9 +220,14 @@ def case_tps(ctx, shape):
             if idx[-1] != k0:
                 g.append(z(Sym.lift(ms[idx[:-1] + (k0,)]).re) > z(Sym.lift(ms[idx]).re))
         ctx.prove("pure sinusoid at bin %d peaks at bin %d" % (k0, k0), [z(amp.re) != 0], conj(g),
-                  replay=lambda m, k0=k0: _replay_sin(shape, k0, m(amp)), witness_terms=dict(amp=amp), timeout_ms=60000)
-    dv = rand_real(rng_for("tps%s" % (shape,)), shape)
-    ctx.validate("calc_slope_temporalps mean", evaluate(mean_tps, assign_of(data, dv)), lambda: tp.calc_slope_temporalps(dv.copy())[0])
+                  replay=lambda m, k0=k0: _replay_sin(shape, k0, m(amp)), witness_terms=dict(amp=amp), timeout_ms=60000 if not lowdim else 20000)
+    if lowdim:
+        asg = {"sa": 0.75, "sb": -1.25}
+        dv = numpy.real(evaluate(data, asg))
+    else:
+        dv = rand_real(rng_for("tps%s" % (shape,)), shape)
+        asg = assign_of(data, dv)
+    ctx.validate("calc_slope_temporalps mean", evaluate(mean_tps, asg), lambda: tp.calc_slope_temporalps(dv.copy())[0])
 
 
 def _replay_sin(shape, k0, amp):
@@ -262,11 +290,11 @@ def build_cases(tier):
         sfs += [((8, 8), None, None), ((8, 8), 4, 1), ((9, 9), 3, 3), ((8, 8), 3, 3), ((6, 12), 3, 1), ((12, 12), 3, 4), ((7, 6), 3, 2)]
     for shape, nb, step in sfs:
         cases.append(("sf/%dx%d/nb=%s/step=%s" % (shape[0], shape[1], nb, step), case_sf, dict(shape=shape, nb=nb, step=step)))
-    tps = [(2, 2), (4, 2), (4, 3), (2, 4, 2), (3, 2)]
+    tps = [(2, 2), (4, 2), (4, 3), (2, 4, 2), (3, 2), (13, 1)]      # 13 frames: the smallest length that is not a "fast" FFT size
     if tier == "thorough":
         tps += [(6, 2), (8, 2), (5, 2), (2, 2, 4, 2), (3, 3, 1)]
     for shape in tps:
-        cases.append(("tps/%s" % "x".join(map(str, shape)), case_tps, dict(shape=shape)))
+        cases.append(("tps/%s" % "x".join(map(str, shape)), case_tps, dict(shape=shape, lowdim=shape[-2] > 8)))
     for n in ([2, 3, 4, 5, 8, 9] if tier == "quick" else list(range(1, 17)) + [31, 32, 100, 101]):
         cases.append(("axis/n=%d" % n, case_axis, dict(n=n)))
     return cases
